@@ -273,7 +273,7 @@ func ckksLeaf(c *engine.Chooser, scName string, cfg *ckksCfg) {
 	maps := mappings()
 	if cfg.declareEach {
 		// probe scenario: every polynomial of the mixed vector declares its own parity
-		maps = append(maps, mapping{"mixed-parity-declared", 3, thirds, true, true})
+		maps = append(maps, mapping{"mixed-parity-declared", 3, thirds, true, true, false})
 	}
 	sh := cfg.shapes[c.ChooseFree(len(cfg.shapes), "shape")]
 	kind := 0
@@ -349,6 +349,22 @@ func ckksLeaf(c *engine.Chooser, scName string, cfg *ckksCfg) {
 		m := maps[kind-kVector0]
 		npoly, mp = m.npoly, m.m(slots)
 	}
+	// basis (interval) of every polynomial; inputs of a slot lie in the interval of the polynomial that covers it
+	bcs := make([]basisCase, npoly)
+	for k := range bcs {
+		bcs[k] = bc
+	}
+	if kind >= kVector0 && maps[kind-kVector0].perPolyIntervals && bc.basis == bignum.Chebyshev {
+		c.Cover("vector-intervals", "per-polynomial")
+		for k := 1; k < npoly; k++ {
+			iv := extraIntervals[(k-1)%len(extraIntervals)]
+			bcs[k] = basisCase{fmt.Sprintf("chebyshev[%v,%v]", iv[0], iv[1]), bignum.Chebyshev, iv[0], iv[1]}
+			xk := ckksInput(bcs[k], slots)
+			for _, j := range mp[k] {
+				x[j] = xk[j]
+			}
+		}
+	}
 	coeffs := make([][]complex128, npoly)
 	S := 0.0
 	for k := range coeffs {
@@ -377,7 +393,7 @@ func ckksLeaf(c *engine.Chooser, scName string, cfg *ckksCfg) {
 	} else {
 		for k, slots := range mp {
 			for _, j := range slots {
-				want[j] = refEval(bc, coeffs[k], x[j])
+				want[j] = refEval(bcs[k], coeffs[k], x[j])
 			}
 		}
 	}
@@ -386,7 +402,7 @@ func ckksLeaf(c *engine.Chooser, scName string, cfg *ckksCfg) {
 	mkBig := func(k int) bignum.Polynomial {
 		var p bignum.Polynomial
 		if bc.basis == bignum.Chebyshev {
-			p = bignum.NewPolynomial(bignum.Chebyshev, coeffs[k], [2]float64{bc.a, bc.b})
+			p = bignum.NewPolynomial(bignum.Chebyshev, coeffs[k], [2]float64{bcs[k].a, bcs[k].b})
 		} else {
 			p = bignum.NewPolynomial(bignum.Monomial, coeffs[k], nil)
 		}
@@ -409,6 +425,7 @@ func ckksLeaf(c *engine.Chooser, scName string, cfg *ckksCfg) {
 		return p
 	}
 	var pol interface{}
+	var vec *ckkspoly.PolynomialVector
 	p0 := mkBig(0)
 	switch {
 	case kind == kBignum:
@@ -428,21 +445,34 @@ func ckksLeaf(c *engine.Chooser, scName string, cfg *ckksCfg) {
 			return
 		}
 		pol = pv
+		vec = &pv
 	}
 
-	// ---- change of basis on the plaintext side, with the values the library advertises:
-	// "ct' = scale * ct + offset ... can be obtained from the polynomial with the method .ChangeOfBasis()"
+	// ---- change of basis ct' = scalar * ct + constant, applied on the plaintext side (before encryption) with the
+	// values the library advertises: Polynomial.ChangeOfBasis() for one polynomial, PolynomialVector.ChangeOfBasis(slots)
+	// (one pair per slot; 0, 0 on uncovered slots, whose result is 0 anyway) for a vector.
 	enc := make([]complex128, len(x))
-	scalar, constant := p0.ChangeOfBasis()
-	sf, _ := scalar.Float64()
-	cf, _ := constant.Float64()
-	for j := range x {
-		enc[j] = x[j]*complex(sf, 0) + complex(cf, 0)
+	ctID := bc.name
+	if vec == nil {
+		scalar, constant := p0.ChangeOfBasis()
+		sf, _ := scalar.Float64()
+		cf, _ := constant.Float64()
+		for j := range x {
+			enc[j] = x[j]*complex(sf, 0) + complex(cf, 0)
+		}
+	} else {
+		scalars, constants := vec.ChangeOfBasis(slots)
+		for j := range x {
+			sf, _ := scalars[j].Float64()
+			cf, _ := constants[j].Float64()
+			enc[j] = x[j]*complex(sf, 0) + complex(cf, 0)
+		}
+		ctID = bc.name + "/" + kindName(kind, maps)
 	}
 
 	// ---- run
 	uni.Seed(c, scName, desc)
-	ct := w.ciphertextSlots(c, bc.name, enc, logSlots, level, inScale)
+	ct := w.ciphertextSlots(c, ctID, enc, logSlots, level, inScale)
 	ctBackup := ct.CopyNew()
 	ev := w.tmpl.ShallowCopy()
 	pe := ckkspoly.NewEvaluator(w.Params, ev)
@@ -608,7 +638,7 @@ func ckksScenarios(tier string, shapes []shape, bound int) []engine.Scenario {
 }
 
 func expectCKKS(tier string) []string {
-	e := []string{"rejected=ckks/too-few-levels", "packing=sparse", "packing=full", "ring=standard", "ring=conjugate-invariant"}
+	e := []string{"rejected=ckks/too-few-levels", "vector-intervals=per-polynomial", "packing=sparse", "packing=full", "ring=standard", "ring=conjugate-invariant"}
 	for _, bc := range basisCases {
 		e = append(e, "scheme=ckks-"+bc.name)
 	}
